@@ -18,6 +18,24 @@ def build(r, name, n_enabled, mask):
     for v in vs:
         if r.random() < 0.2:
             v.serialize = [r.choice(gen.SPELLINGS_ASCII)]
+        if v.disabled and r.random() < 0.4:
+            v.message = "disabled with other attributes"
+        v.split_attrs = r.choice([0, 1, 2])
+        v.attr_order_seed = r.randint(0, 7)
+    spec = EnumSpec(name=name, variants=vs, derives=["EnumTable"], std_derives=["Debug", "PartialEq", "Clone", "Copy"])
+    if r.random() < 0.5:
+        # explicit discriminants in an order unrelated to the declaration order
+        vals = r.sample(range(-40, 400), n)
+        spec.repr = "i32"
+        for v, val in zip(vs, vals):
+            if r.random() < 0.7:
+                v.disc = (str(val), val)
+        ds = model.discriminants(spec)
+        if len(set(ds)) != len(ds):
+            for v in vs:
+                v.disc = None
+            spec.repr = None
+    return spec
     return EnumSpec(name=name, variants=vs, derives=["EnumTable"], std_derives=["Debug", "PartialEq", "Clone", "Copy"])
 
 
@@ -110,7 +128,7 @@ def check(run):
             specs.append(build(r0, "E%d" % k, n - sum(mask), mask))
             k += 1
     r = gen.rng_for(run.seed, "c10")
-    for _ in range(200 if thorough else 30):
+    for _ in range(500 if thorough else 100):
         n = r.choice([1, 2, 3, 5, 8, 12, 16, 24])
         mask = [r.random() < 0.25 for _ in range(n)]
         if all(mask):
